@@ -25,11 +25,14 @@ VAL["hdr_get_name"] = "name"
 VAL["val_get_NC"] = "NC"
 VAL["hdr_get_NON_NEG"] = "NONNEG"
 del VAL["val_get_NC_name"], VAL["val_get_NC_NC"]
-W4_CALLS = {"ncmpix_put_uint32", "hdr_get_uint32", "hdr_get_NC_tag", "hdr_get_nc_type",
+OFFT = {"hdr_get_NC_" + p: p for p in PRODS}
+OFFT["ncmpii_hdr_get_NC"] = "NC"
+del OFFT["hdr_get_NC_NC"]
+W4_CALLS = {"hdr_get_NCtype", "ncmpix_put_uint32", "hdr_get_uint32", "hdr_get_NC_tag", "hdr_get_nc_type",
             "get_uint32", "val_get_NC_tag", "val_get_nc_type"}
 W8_CALLS = {"ncmpix_put_uint64", "hdr_get_uint64", "get_uint64"}
 RUN_CALLS = {"ncmpix_pad_putn_text", "ncmpix_putn_text", "ncmpix_getn_text"}
-NT_TABLE = {"enc": ENC, "dec": DEC, "val": VAL}
+NT_TABLE = {"enc": ENC, "dec": DEC, "val": VAL, "off": OFFT}
 STATUS_NAMES = {"err", "status"}
 
 
@@ -50,7 +53,7 @@ class Summ:
             a, b = strip(c["a"]), c["b"]
             k = const_value(b)
             if isinstance(a, dict) and k is not None:
-                if (a.get("k") == "mem" and a.get("f") in ("version", "format")) or canon(a) == "magic[3]":
+                if (a.get("k") == "mem" and a.get("f") in ("version", "format")) or canon(a) in ("magic[3]", "magic[NC_MAGIC_LEN - 1]", "magic[4 - 1]"):
                     v = self.v
                     return {"<": v < k, ">": v > k, "<=": v <= k, ">=": v >= k, "==": v == k, "!=": v != k}[c["op"]]
                 if a.get("k") == "ref" and a.get("n") in STATUS_NAMES and c["op"] in ("==", "!="):
@@ -58,7 +61,7 @@ class Summ:
                     return ok if c["op"] == "==" else (not ok)
         if c.get("k") == "call" and c.get("fn") == "memcmp":
             return False if "magic" in canon(c) else None
-        if c.get("k") == "bin" and c.get("op") == "!=" and isinstance(strip(c["a"]), dict) and strip(c["a"]).get("fn") == "memcmp":
+        if c.get("k") == "bin" and c.get("op") == "!=" and isinstance(strip(c["a"]), dict) and strip(c["a"]).get("fn") in ("memcmp", "strncmp"):
             return False
         return None
 
